@@ -8,7 +8,8 @@
    collect, reset}; [Fresh NH s n h] = "h is the hash of n computed from
    scratch from the current structure of s"; NH is the user's node hash
    function (ANY function); [guard] = the structure stays
-   a DAG and a bulk update receives a dict of plain names and existing nodes;
+   a DAG ([acyclic]: some labelling of the handles by natural numbers strictly
+   decreases along every child edge) and a bulk update receives a dict of plain names and existing nodes;
    [guarded [] h] = every step of history h from the empty heap is guarded.
    The two boolean arguments of step/guard select the code that is modelled:
    first, how a parent link is removed: true = by identity (the code as it is),
@@ -18,7 +19,7 @@
 From Coq Require Import List NArith.
 From SWH.lib Require Import Bytes.
 From SWH.model Require Import Merkle.
-From SWH.proofs Require Import MerkleBase MerkleInv MerkleStep MerkleWitness.
+From SWH.proofs Require Import MerkleBase MerkleAcyclic MerkleInv MerkleStep MerkleTotal MerkleWitness.
 Import ListNotations.
 Local Open Scope nat_scope.
 
@@ -59,6 +60,37 @@ Theorem C10_no_stale : forall NH : bytes -> list entry -> bytes,
      exists x, nth_error s n = Some x /\ FreshKids NH s' (kids x) es).
 Proof. exact no_stale. Qed.
 Print Assumptions C10_no_stale.
+
+(* No operation of a guarded history can run out of fuel: the path-key lookups
+   of Directory (__getitem__, __contains__) never do, in any state (each level
+   of key.split(b"/", 1) strictly shortens the key), and after ANY guarded
+   history NO operation - set, delete, bulk update, get, contains, read, forced
+   update, entries, to_model, collect, reset, on valid or invalid handles -
+   answers "out of fuel": the recursive procedures of the model are total
+   there, errors are only KeyError / ValueError / AttributeError / bad handle. *)
+Theorem C10_path_ops_total : forall NH : bytes -> list entry -> bytes,
+  (forall s n key e, getitem_ s n key = Err e -> e <> EFuel) /\
+  (forall s n key e, contains_ s n key = Err e -> e <> EFuel) /\
+  (forall h o e, guarded NH true false [] h ->
+     snd (step NH true false (final NH true false [] h) o) = OutErr e -> e <> EFuel).
+Proof. exact path_ops_total. Qed.
+Print Assumptions C10_path_ops_total.
+
+(* The acyclicity guard is the plain one: "some rank decreases along child
+   edges" is equivalent to the same with the rank bounded by the number of
+   nodes (the form the fuel arguments use; rank' n = 1 + number of nodes of
+   smaller rank), and it implies that no node is reachable from one of its own
+   children. *)
+Theorem C10_acyclic_equiv : forall s : heap,
+  (exists rank, forall n m, edge s n m -> rank m < rank n) <->
+  (exists rank, (forall n m, edge s n m -> rank m < rank n) /\ (forall n, rank n <= length s)).
+Proof. exact acyclic_equiv. Qed.
+Print Assumptions C10_acyclic_equiv.
+
+Theorem C10_acyclic_no_self_reach : forall s : heap, acyclic s ->
+  forall n k, edge s n k -> ~ Reach s k n.
+Proof. exact acyclic_no_self_reach. Qed.
+Print Assumptions C10_acyclic_no_self_reach.
 
 (* "The" value computed from scratch: Fresh is functional. *)
 Theorem C10_fresh_unique : forall (NH : bytes -> list entry -> bytes) (s : heap),
